@@ -333,6 +333,18 @@ func c10HeaviestTip(w *core.WorkerCtx) {
 		for h := range s.Leaves {
 			tip = h
 		}
+		if heavy == 1<<63 {
+			// a second, redundant sync attempt on the joined node first: it is refused ("already loaded") and must change
+			// nothing, least of all what the node knows about the genesis wallet
+			ch := make(chan *accountant.Vertex, 4)
+			g := world.Genesis
+			ch <- &g
+			close(ch)
+			_, cancelCause := context.WithCancelCause(context.Background())
+			n.Book.LoadDag(cancelCause, ch)
+			cancelCause(nil)
+			world.Observe(n, ledger.OpInfo{Kind: "query", OK: true})
+		}
 		ht := world.NewTrx(u[0], u[1].Addr, spice.Melange{}, []byte("carried by a vertex of maximal weight"))
 		hv := ledger.ForgeVertex(world.Sealers[0], ht, tip, tip, heavy, world.Now())
 		herr := world.Deliver(n, &hv, "vertex of maximal weight")
@@ -352,6 +364,20 @@ func c10HeaviestTip(w *core.WorkerCtx) {
 			world.NontrivFor("C10", fmt.Sprintf("heaviest-tip/w%d/%s/heavy-admitted=%v/refused=%v", heavy>>60, rule, herr == nil, err != nil))
 			if err == nil {
 				world.Violate("C10", "accepted/"+rule+"/after-heaviest-tip", fmt.Sprintf("with a tip of weight %d in the ledger the node sealed a %s transaction (vertex %s, weight %d)", heavy, rule, ledger.Hex(v.Hash), v.Weight))
+			}
+			if rule == "genesis-wallet-spends" {
+				var tp ledger.H
+				var tw uint64
+				for h := range n.Prev.Leaves {
+					if tv, ok := n.Prev.Vertex(h); ok {
+						tp, tw = h, tv.Weight
+					}
+				}
+				gt := world.NewTrx(world.Nodes[0].Actor, u[2].Addr, spice.Melange{Currency: 1}, nil)
+				gv := ledger.ForgeVertex(world.Sealers[1], gt, tp, tp, tw+1, world.Now())
+				if gerr := world.Deliver(n, &gv, "genesis wallet spends in a gossiped vertex"); gerr == nil {
+					world.Violate("C10", "accepted/genesis-wallet-spends/after-heaviest-tip", fmt.Sprintf("the joined node admitted a gossiped vertex issued by the genesis wallet (weight of the heavy tip %d)", heavy))
+				}
 			}
 			// an ordinary proposal in between (its weight wraps around)
 			m := world.NewTrx(u[0], u[1].Addr, spice.Melange{}, []byte("ordinary"))
